@@ -166,6 +166,42 @@ theorem C07_default_rules_meaning (f : Frame) :
     simp only [AddrSpec, reduceCtorEq, false_implies, implies_true, and_true, Option.some.injEq, forall_eq']
     exact eq_comm
 
+def ruleArp : Rule :=
+  { action := .permit, proto := none, srcIp := none, srcWc := none, dstIp := none, dstWc := none,
+    srcPort := some arpPort, dstPort := some arpPort }
+def ruleIcmp : Rule :=
+  { action := .permit, proto := some .icmp, srcIp := none, srcWc := none, dstIp := none, dstWc := none,
+    srcPort := none, dstPort := none }
+
+/-- **A router as built** (implicit DENY, ARP rule at 22, ICMP rule at 23) permits exactly the frames whose header ports
+are both 219 (rule 22) and the ICMP frames (rule 23); everything else falls to the implicit DENY.  (ARP packets proper never
+reach the list: `C07_router_arp_exempt`.) -/
+theorem C07_router_as_built (f : Frame) :
+    ((routerList 25).isPermitted f.toPacket).1 = true ↔ (f.ports = some (arpPort, arpPort) ∨ f.proto = .icmp) := by
+  have h22 := (C07_default_rules_meaning f).2.1 ruleArp (by simp [defaultRouterRules, ruleArp])
+  have h23 := (C07_default_rules_meaning f).2.2 ruleIcmp (by simp [defaultRouterRules, ruleIcmp])
+  rw [C07_gen_permit_frame_check, toPacket_view] at h22 h23
+  simp only at h22 h23
+  have hr : (routerList 25).core.rules = List.replicate 22 none ++ [some ruleArp, some ruleIcmp] := by decide
+  have hi : (routerList 25).core.implicit = .deny := by decide
+  have hperm : ruleArp.action = .permit ∧ ruleIcmp.action = .permit := ⟨rfl, rfl⟩
+  unfold AclObj.isPermitted Acl.isPermitted
+  rw [hr]
+  simp only [List.replicate, List.cons_append, List.nil_append, firstMatch]
+  by_cases a : ruleArp.hits? f.toPacket = true
+  · simp only [a, if_true]
+    have := h22.mp a
+    simp [this, hperm.1]
+  · simp only [a, Bool.false_eq_true, if_false]
+    have na : ¬ f.ports = some (arpPort, arpPort) := fun e => a (h22.mpr e)
+    by_cases b : ruleIcmp.hits? f.toPacket = true
+    · simp only [b, if_true]
+      have := h23.mp b
+      simp [this, hperm.2]
+    · simp only [b, Bool.false_eq_true, if_false]
+      have nb : ¬ f.proto = .icmp := fun e => b (h23.mpr e)
+      simp [hi, na, nb]
+
 /-! non-vacuity: concrete frames -/
 def exPing : Frame :=
   { proto := .icmp, srcIp := 0xC0A80202#32, dstIp := 0xC0A80102#32, tcp := none, udp := none, icmp := true, arpPayload := false }
